@@ -4,7 +4,7 @@ import z3
 from pyvc.vals import Val, NONE, I, B, Z, ref, fresh, cls_of, PENDING
 from pyvc.verify import Unit, sym_inst, sym_val, user_calls
 from pyvc.symexec import Raise, LoopSpec
-from .base import make_cfg, FIELD_TYPES, INST, OPT
+from .base import make_cfg, FIELD_TYPES, INST, OPT, local, decided
 
 FIELD_TYPES.update({
     ("ThrottleExecutor", "_log"): "logger",
@@ -225,11 +225,11 @@ def _cfg_iter():
     # loop 0: the commit loop (while executor._to_submit); loop 1: the hand-over loop (for job in to_submit)
     def commit_post(engine, st, fr, ctx, events):
         env = st.envs[fr.eid]
-        thr = env["throttle"]
+        thr = local(engine, st, fr, "$call:_eval_throttle", "throttle")
         exv = env["executor"]
         sid = Val.id(exv.t)
         qid = Val.id(st.get("_to_submit", sid))
-        loc = Val.id(env["to_submit"].t)
+        loc = Val.id(local(engine, st, fr, "$list#0", "to_submit").t)
         pops = [e for e in events if e.kind == "popped"]
         apps = [e for e in events if e.kind == "mutate" and e.meth in ("append", "appendleft", "insert", "extend")]
         incs = [e for e in events if e.kind == "write" and e.meth == "value"]
@@ -265,7 +265,7 @@ def _cfg_iter():
         # iteration (commit_post: one pop = one append), so a non-empty list means the queue got shorter
         env = st.envs[fr.eid]
         sid = Val.id(env["executor"].t)
-        loc = Val.id(env["to_submit"].t)
+        loc = Val.id(local(engine, st, fr, "$list#0", "to_submit").t)
         space = Val.id(st.get("_space_event", sid))
         sets = [e for e in st.trace if e.kind == "event-set" and z3.is_true(z3.simplify(e.recv == space))]
         return [("jobs were taken out of the queue in this iteration => a submit() blocked on the full queue has been woken (its event is set after the removals)",
@@ -310,8 +310,8 @@ def _post_iter(engine, st, ctx, out):
         cl.append(("the wait is always bounded (the count may be a function of time): 30 s while something is in flight - its completion will wake the thread "
                    "anyway -, 2 s when nothing runs and no completion can be expected", "WK",
                    z3.And(z3.Not(Val.is_none(w)), z3.Or(w == Val.realv(z3.RealVal(30)), w == Val.realv(z3.RealVal(2))),
-                          z3.BoolVal(any(a == "executor._running_count.value" for a, b in st.decisions))), ["C07", "C03"]))
-        nz = [b for a, b in st.decisions if a == "executor._running_count.value"]
+                          z3.BoolVal(bool(decided(engine, st, "throttle._submit_loop_iter", "{$param#0|executor}._running_count.value")))), ["C07", "C03"]))
+        nz = decided(engine, st, "throttle._submit_loop_iter", "{$param#0|executor}._running_count.value")
         if nz:
             cl.append(("... the short wait is chosen exactly when the counter read zero", "WK", (w == Val.realv(z3.RealVal(30))) if nz[-1] else (w == Val.realv(z3.RealVal(2))), ["C07", "C03"]))
     return cl
@@ -399,7 +399,7 @@ def _cfg_do_cancel():
     def inv(engine, st, fr, ctx):
         # LI: no job before position i belongs to the future being cancelled
         at, i = ctx["src"]["at"], ctx["i"]
-        fut = engine.to_val(st, st.envs[fr.eid]["future"])
+        fut = engine.to_val(st, local(engine, st, fr, "$param#1", "future"))
         j = z3.Int("j!dc")
         return [("jobs before i belong to other futures",
                  z3.ForAll([j], z3.Implies(z3.And(j >= 0, j < i), st.get("future", Val.id(z3.Select(at, j))) != fut)))]
